@@ -4,10 +4,11 @@ h="$1"; t="${2:-300}"
 cd "$(dirname "$0")"
 export CARGO_NET_OFFLINE=true
 export RUSTFLAGS="--cfg gothenburgbitfactory_taskchampion_verif"
-mkdir -p ../.build/kani-logs
-log="../.build/kani-logs/$h.log"
+B="${VERIF_BUILD:-$(cd .. && pwd)/.build}"
+mkdir -p "$B/kani-logs"
+log="$B/kani-logs/$h.log"
 s=$(date +%s)
-( ulimit -v 12000000; timeout "$t" cargo kani --target-dir ../.build/kani-target --harness "$h" --exact > "$log" 2>&1 )
+( ulimit -v 12000000; timeout "$t" cargo kani --target-dir "$B/kani-target" --harness "$h" --exact > "$log" 2>&1 )
 rc=$?
 e=$(( $(date +%s) - s ))
 if [ $rc -eq 124 ]; then echo "$h TIMEOUT $e"; exit 0; fi
